@@ -28,9 +28,12 @@ pub enum Regime {
     /// quiet walk near the band floor with rare "bad ticks" 1e6..3e7 times larger (high dynamic range:
     /// residue left in running sums is large relative to the quiet values that follow)
     BadTicks,
+    /// an almost flat level (relative jitter 1e-6) with rare spikes 1000x higher: after a spike leaves a
+    /// window, what is left is tiny true dispersion plus the spike's rounding residue
+    QuietSpikes,
 }
 
-pub const BAND_REGIMES: [Regime; 11] = [
+pub const BAND_REGIMES: [Regime; 12] = [
     Regime::Walk,
     Regime::AltExtremes,
     Regime::Spikes,
@@ -42,6 +45,7 @@ pub const BAND_REGIMES: [Regime; 11] = [
     Regime::Integer,
     Regime::LogUniform,
     Regime::BadTicks,
+    Regime::QuietSpikes,
 ];
 
 impl Regime {
@@ -125,6 +129,13 @@ impl BandGen {
             Regime::Uniform => r.uniform(lo, hi),
             Regime::Integer => lo * (1 + r.below(12)) as f64,
             Regime::LogUniform => lo * r.log_uniform(1.0, 1000.0),
+            Regime::QuietSpikes => {
+                if r.chance(0.004) {
+                    hi * (1.0 - 0.1 * r.f())
+                } else {
+                    lo * (1.0 + 3e-6 * r.normal())
+                }
+            }
             Regime::BadTicks => {
                 self.cur = (self.cur * (1.0 + 0.01 * r.normal())).clamp(lo, 3.0 * lo);
                 if r.chance(0.004) {
